@@ -135,7 +135,116 @@ fn expect(op: &TOp, pool: &[Vec<scnr::ScannerMode>], inputs: &[String], shared: 
     }
 }
 
+/// Fixed cases take this lock: the storm exclusively (a successful build of anybody else would wake
+/// threads that a lost wakeup left sleeping and hide it), churn and hammer shared.
+static QUIET: std::sync::RwLock<()> = std::sync::RwLock::new(());
+
+/// All threads build the SAME configuration at the same moment, round after round with fresh
+/// names: configurations that fail late (a large valid mode first, a broken pattern or lookahead
+/// in a later mode), fail at once, or are valid but slow to compile. Every call must return what the
+/// sequential build returns, within the deadline.
+fn storm(case: &Case) -> CheckResult {
+    let _quiet = QUIET.write().unwrap_or_else(|e| e.into_inner());
+    let threads = case.extra["threads"].as_u64().unwrap_or(6).clamp(2, 64) as usize;
+    let rounds = case.extra["rounds"].as_u64().unwrap_or(20).clamp(1, 1000) as usize;
+    let deadline_s = case.extra["deadline_s"].as_u64().unwrap_or(20).clamp(1, 600);
+    let big = |name: String, k: usize| {
+        let mut pats: Vec<scnr::Pattern> = (0..30 + k % 7)
+            .map(|i| scnr::Pattern::new(format!("kw{:03}[a-f]{{2,4}}", i), i + 2))
+            .collect();
+        pats.push(scnr::Pattern::new("[a-z_][a-z0-9_]*".to_string(), 0));
+        pats.push(scnr::Pattern::new("b".to_string(), 1).with_lookahead(scnr::Lookahead::new(k % 2 == 0, "c+".to_string())));
+        scnr::ScannerMode::new(&name, pats, vec![(0, 0)])
+    };
+    let probe = "kw003abc bc b kw017ffff x";
+    let mut st = CaseStats::default();
+    for r in 0..rounds {
+        let nonce = NONCE.fetch_add(1, Ordering::Relaxed);
+        let kind = r % 4;
+        let mut modes = vec![big(format!("STORM{}_A", nonce), r)];
+        match kind {
+            0 => modes.push(scnr::ScannerMode::new(&format!("STORM{}_B", nonce), vec![scnr::Pattern::new("(unclosed".to_string(), 1)], vec![])),
+            1 => modes.push(scnr::ScannerMode::new(
+                &format!("STORM{}_B", nonce),
+                vec![scnr::Pattern::new("x".to_string(), 1).with_lookahead(scnr::Lookahead::new(true, "^a".to_string()))],
+                vec![],
+            )),
+            2 => modes.insert(0, scnr::ScannerMode::new(&format!("STORM{}_0", nonce), vec![scnr::Pattern::new("a\\b".to_string(), 1)], vec![])),
+            _ => modes.push(big(format!("STORM{}_B", nonce), r + 1)),
+        }
+        let sequential = match guard(|| scnr::ScannerBuilder::new().add_scanner_modes(&modes).build_uncached().map(|s| scan(&s, probe, usize::MAX).0)) {
+            Ok(r) => r.map_err(|e| e.to_string()),
+            Err(p) => return Err(Failure::panic("c14.panic", "sequential build panicked", p)),
+        };
+        let modes = Arc::new(modes);
+        let barrier = Arc::new(Barrier::new(threads));
+        let (tx, rx) = std::sync::mpsc::channel::<(usize, Result<Result<Vec<Tok>, String>, String>)>();
+        for t in 0..threads {
+            let (modes, barrier, tx) = (modes.clone(), barrier.clone(), tx.clone());
+            std::thread::spawn(move || {
+                run::install_panic_hook();
+                barrier.wait();
+                let r = guard(|| {
+                    scnr::ScannerBuilder::new()
+                        .add_scanner_modes(&modes)
+                        .build()
+                        .map(|s| scan(&s, probe, usize::MAX).0)
+                        .map_err(|e| e.to_string())
+                });
+                let _ = tx.send((t, r));
+            });
+        }
+        drop(tx);
+        let until = std::time::Instant::now() + std::time::Duration::from_secs(deadline_s);
+        let mut returned = Vec::new();
+        while returned.len() < threads {
+            let left = until.saturating_duration_since(std::time::Instant::now());
+            match rx.recv_timeout(left) {
+                Ok((t, res)) => {
+                    match res {
+                        Err(p) => return Err(Failure::panic("c14.panic", format!("storm round (kind {}): build() panicked in thread {}", kind, t), p)),
+                        Ok(got) => {
+                            if got.is_ok() != sequential.is_ok() || (got.is_ok() && got != sequential) {
+                                return Err(Failure::new(
+                                    "c14.storm",
+                                    format!("storm round {} (kind {}): {} threads build the same configuration at once; thread {} observed something else than the sequential build", r, kind, threads, t),
+                                )
+                                .exp_obs(&sequential, &got));
+                            }
+                        }
+                    }
+                    returned.push(t);
+                }
+                Err(_) => {
+                    returned.sort();
+                    return Err(Failure::new(
+                        "c14.deadlock",
+                        format!(
+                            "storm round {} (kind {}: {}): {} threads build the same configuration at once; only the threads {:?} returned from build() within {} s",
+                            r,
+                            kind,
+                            if sequential.is_ok() { "valid" } else { "failing" },
+                            threads,
+                            returned,
+                            deadline_s
+                        ),
+                    ));
+                }
+            }
+        }
+        if sequential.is_err() {
+            st.count("storm_rounds_failing_configuration");
+        } else {
+            st.count("storm_rounds_valid_configuration");
+        }
+    }
+    st.nontrivial = true;
+    st.count("storm_cases");
+    Ok(st)
+}
+
 fn hammer(case: &Case) -> CheckResult {
+    let _quiet = QUIET.read().unwrap_or_else(|e| e.into_inner());
     let threads = case.extra["threads"].as_u64().unwrap_or(8).clamp(2, 64) as usize;
     let rounds = case.extra["rounds"].as_u64().unwrap_or(10).clamp(1, 1000) as usize;
     let modes = vec![scnr::ScannerMode::new(
@@ -221,6 +330,7 @@ fn hammer(case: &Case) -> CheckResult {
 
 fn churn(case: &Case) -> CheckResult {
     use std::sync::atomic::AtomicBool;
+    let _quiet = QUIET.read().unwrap_or_else(|e| e.into_inner());
     let n = |k: &str, d: usize| case.extra[k].as_u64().map(|x| x as usize).unwrap_or(d);
     let (hit_threads, miss_threads, fresh, nfixed) = (
         n("hit_threads", 4).min(32),
@@ -328,7 +438,7 @@ impl Check for C14 {
         "C14"
     }
     fn rule(&self) -> &'static str {
-        "static: the check binary only compiles if scnr::Scanner: Send + Sync; dynamic case = pool of 2-4 configurations (near-identical variants and one failing configuration) with nonce'd mode names, 2-3 inputs, one shared Arc<Scanner>, 2-8 thread programs of build(k) through the shared cache (first build of a key is a miss, later ones hits, failing builds) | scan on the shared scanner (full or partial) | private build_uncached + scan, with per-operation spin/yield counts from the choice stream and a barrier-aligned start, repeated 20 times with fresh nonces; plus fixed cache-churn cases (6 threads re-building 8 long-lived keys in a tight loop while 6 threads insert 2 500 new keys each) and shared-scan hammer cases (8 threads, long inputs of characters coinciding modulo 2^6..2^20); oracle = every observation of every thread equals the observation of the same operation executed sequentially on uncached scanners; no panic (a poisoned cache lock shows as a panic of a later build), no-progress watchdog; non-trivial = repetition in which >= 2 threads build the same key (hit while another inserts) or >= 2 threads iterate the shared scanner"
+        "static: the check binary only compiles if scnr::Scanner: Send + Sync; dynamic case = pool of 2-4 configurations (near-identical variants and one failing configuration) with nonce'd mode names, 2-3 inputs, one shared Arc<Scanner>, 2-8 thread programs of build(k) through the shared cache (first build of a key is a miss, later ones hits, failing builds) | scan on the shared scanner (full or partial) | private build_uncached + scan, with per-operation spin/yield counts from the choice stream and a barrier-aligned start, repeated 20 times with fresh nonces; plus a fixed build-storm case (6 threads build the SAME configuration behind a barrier, 24 (thorough 200) rounds with fresh names: failing late in a second mode / in a lookahead, failing at once, valid but slow; every call must return the sequential result within 20 s, run while no other case builds), fixed cache-churn cases (6 threads re-building 8 long-lived keys in a tight loop while 6 threads insert 2 500 new keys each) and shared-scan hammer cases (8 threads, long inputs of characters coinciding modulo 2^6..2^20); oracle = every observation of every thread equals the observation of the same operation executed sequentially on uncached scanners; no panic (a poisoned cache lock shows as a panic of a later build), no-progress watchdog; non-trivial = repetition in which >= 2 threads build the same key (hit while another inserts) or >= 2 threads iterate the shared scanner"
     }
     fn assumptions(&self) -> Vec<String> {
         vec!["schedules are sampled on real threads, not enumerated; the thorough tier adds a ThreadSanitizer build and Miri with seeded preemptive schedules on small programs".into()]
@@ -366,6 +476,11 @@ impl Check for C14 {
                 ..Case::default()
             });
         }
+        // all threads build the same (failing / slow) configuration at the same moment
+        v.push(Case {
+            extra: json!({"kind": "storm", "threads": 6, "rounds": if thorough { 200 } else { 24 }, "deadline_s": 20}),
+            ..Case::default()
+        });
         v
     }
     fn generate(&self, d: &mut Dec, thorough: bool) -> Case {
@@ -458,6 +573,9 @@ impl Check for C14 {
         }
         if case.extra["kind"].as_str() == Some("hammer") {
             return hammer(case);
+        }
+        if case.extra["kind"].as_str() == Some("storm") {
+            return storm(case);
         }
         let Some(pool) = pool_of(case) else {
             return Ok(CaseStats::default());
